@@ -329,7 +329,12 @@ def processing_rule(repo):
     has = [x for x in src if x in need]
     pm = parent_map(fi.node)
     mask = [s for s in walk_no_nested(fi.node) if isinstance(s, ast.AugAssign) and unparse(s) == "attr_chunk *= X[z].cpu()"]
-    if has == need and mask:
+    hyp = [s_ for s_ in walk_no_nested(fi.node) if isinstance(s_, ast.Assign) and unparse(s_) == need[0]]
+    if hyp and not (isinstance(pm.get(hyp[0]), ast.If) and unparse(pm[hyp[0]].test) in ("raw_outputs == False", "not raw_outputs")):
+        g0 = pm.get(hyp[0])
+        out.append(violation("PROCESS", fi, role, "the hypothetical projection is applied under `%s`: raw multipliers are projected / processed ones are not" % (
+            unparse(g0.test) if isinstance(g0, ast.If) else "no condition"), hyp[0]))
+    elif has == need and mask:
         g = pm[mask[0]]
         g2 = pm[g] if isinstance(g, ast.If) else None
         ok = isinstance(g, ast.If) and unparse(g.test) in ("not hypothetical", "hypothetical == False") and isinstance(g2, ast.If) \
